@@ -24,9 +24,16 @@ impl Shared {
         self.0.borrow().get_ref().clone()
     }
 }
+thread_local! {
+    /// when non-zero, every `Shared` sink accepts at most this many bytes per write call (a legal
+    /// `io::Write`: `write_all` offers the rest again)
+    pub static SHORT_WRITE_MAX: std::cell::Cell<usize> = std::cell::Cell::new(0);
+}
 impl Write for Shared {
     fn write(&mut self, buf: &[u8]) -> std::io::Result<usize> {
-        self.0.borrow_mut().write(buf)
+        let max = SHORT_WRITE_MAX.with(|m| m.get());
+        let n = if max == 0 { buf.len() } else { buf.len().min(max) };
+        self.0.borrow_mut().write(&buf[..n])
     }
     fn flush(&mut self) -> std::io::Result<()> {
         Ok(())
